@@ -333,12 +333,15 @@ class Hist:
                     return
                 e = rng.choice(nodes)
                 r = rng.random()
+                # the key is addressed as it is stored (whatever its letter case), or in another spelling
+                stored = next(k for k in e if k.casefold() == 'nodeid')
+                key = stored if rng.random() < 0.6 else rng.choice(('nodeid', 'NodeID', 'NODEID'))
                 if r < 0.4:
-                    e['nodeid'] = rng.choice((1, 2, 5, 9))
+                    e[key] = rng.choice((1, 2, 5, 9))
                 elif r < 0.6:
-                    del e['nodeid']
+                    del e[key]
                 elif r < 0.8:
-                    e.pop('nodeid')
+                    e.pop(key)
                 else:
                     c = e.copy()
                     vmf.add_ent(c)
